@@ -102,3 +102,15 @@ def ims_input_from_trace(tr, n, fn):
         toks += [a[k], b[k], cab[k], cba[k]]
     return {'tokens': toks, 'n': n, 'a': a[:n], 'b': b[:n],
             'cov(a_k,b_k)': cab[:n], 'cov(b_k,a_k)': cba[:n]}
+
+
+def replay_best(n, order, dom):
+    nc = len(dom)
+    toks = [nc, n] + list(order)
+    for i in range(nc):
+        for j in range(nc):
+            v = dom[i][j]
+            toks.append(1 if v else 0)
+    inp = {'tokens': toks, 'candidates_in_order': order,
+           'more_specific_pairs': [(i, j) for i in range(nc) for j in range(nc) if dom[i][j]]}
+    return run_real_driver('best', [], inp)
